@@ -327,7 +327,13 @@ func TestC20Redundant(t *testing.T) {
 		n := rapid.IntRange(0, 4).Draw(rt, "processed")
 		var pend []*pendingDeposit
 		for i := 0; i < n+3; i++ {
-			_, p := tc.l1Deposit(tc.users[0], tc.users[1].Str, coinOf("uinit", int64(10+i)), nil)
+			// one deposit in three cannot be credited on L2 (it ends as a refund withdrawal): fresh all the same
+			to := tc.users[1].Str
+			if rapid.IntRange(0, 2).Draw(rt, "refunded") == 0 {
+				to = "not-an-l2-address"
+				c.Class("redundancy/pending-deposit-that-will-be-refunded")
+			}
+			_, p := tc.l1Deposit(tc.users[0], to, coinOf("uinit", int64(10+i)), nil)
 			pend = append(pend, p)
 		}
 		for i := 0; i < n; i++ {
